@@ -439,6 +439,32 @@ struct Exec {
                     emitTable(aname, nRes, D, again);
                     emitEq(rname, aname, res->e, again);
                     STATS.hit("idem.again");
+                    // Reach.lfp_union: the answer from a UNION of initial sets is the UNION of the answers (same edge).
+                    for (Res* o : results) {
+                        if (o == res) continue;
+                        std::string tail = "/" + st.b + (st.fwd ? "/f" : "/b");
+                        if (o->key.size() <= tail.size() || o->key.compare(o->key.size() - tail.size(), tail.size(), tail) != 0) continue;
+                        std::string oa = o->key.substr(0, o->key.size() - tail.size());
+                        if (oa == st.a || !edges.count(oa)) continue;
+                        std::string un = rname + ".ui", run = rname + ".ru", urn = rname + ".ur";
+                        dd_edge ui(FSet), ru(FRes), ur(FRes);
+                        apply(UNION, edges[oa], I, ui);
+                        emit("op %s UNION %s %s", un.c_str(), oa.c_str(), st.a.c_str());
+                        emitTable(un, nSet, D, ui);
+                        switch (st.alg) {
+                            case ALG_FS: apply(REACHABLE_TRAD_FS(st.fwd), ui, R, ru); break;
+                            case ALG_NOFS: apply(REACHABLE_TRAD_NOFS(st.fwd), ui, R, ru); break;
+                            default: apply(REACHABLE_SATUR(st.fwd, 1), ui, R, ru); break;
+                        }
+                        emit("op %s %s %s %s", run.c_str(), opn.c_str(), un.c_str(), st.b.c_str());
+                        emitTable(run, nRes, D, ru);
+                        apply(UNION, o->e, res->e, ur);
+                        emit("op %s UNION %s %s", urn.c_str(), o->name.c_str(), rname.c_str());
+                        emitTable(urn, nRes, D, ur);
+                        emitEq(run, urn, ru, ur);
+                        STATS.hit("union.law");
+                        break;
+                    }
                 } catch (error& e2) {
                     emit("err %s %s %s %s %s", aname.c_str(), opn.c_str(), rname.c_str(), st.b.c_str(), errName(e2));
                     STATS.hit(std::string("err.again.") + errName(e2));
